@@ -38,7 +38,7 @@ IR_RUNS.update({
             "thorough": [("MC", "hier_ghost", 1), ("MC", "hier_deep", 0), ("MC", "hier_twice", 0), ("MC", "hier_none", 0), ("MC", "hier11", 4), ("MC", "hier11", 12, 600), ("MC", "hier_edit", 2),
                          ("MC", "hier_edit", 10, 400), ("MC", "hier_walk", 16, 1500)]},
     "C07": {"quick": [("MC", "clone", 2), ("MC", "clone_top", 1), ("MC", "clone_edit", 0)],
-            "thorough": [("MC", "clone", 4), ("MC", "clone", 10, 60), ("MC", "clone_top", 3), ("MC", "clone_edit", 1)]},
+            "thorough": [("MC", "clone", 3), ("MC", "clone", 10, 200), ("MC", "clone_top", 3), ("MC", "clone_edit", 1)]},
     "C06": {"quick": [("MC", "vlog_read", 2), ("MC", "vlog_read", 10, 14), ("MC", "vlog_decl", 0), ("MC", "vlog_assign", 1), ("MC", "vlog_alias", 2), ("MC", "vlog_shared", 0), ("FILES", "vlog_file", 6000)],
             "thorough": [("MC", "vlog_read", 3), ("MC", "vlog_read", 12, 300), ("MC", "vlog_decl", 0), ("MC", "vlog_assign", 3), ("MC", "vlog_alias", 4), ("MC", "vlog_shared", 0), ("FILES", "vlog_file", 30000)]},
     "C04": {"quick": [("MC", "vlog_rt", 2), ("MC", "vlog_rt", 10, 14), ("MC", "vlog_decl", 0), ("MC", "vlog_unused", 0), ("MC", "vlog_assign", 1), ("MC", "vlog_alias", 3), ("MC", "vlog_shared", 0), ("FILES", "vlog_rt", 6000)],
@@ -56,7 +56,7 @@ IR_RUNS.update({
     "C05": {"quick": [("MC", "edif_read", 2), ("MC", "edif_read1", 1), ("MC", "edif_read", 10, 8), ("MC", "edif_read_br", 1), ("MC", "edif_read2", 1), ("MC", "edif_read_case", 0), ("FILES", "edif_file", 12000)],
             "thorough": [("MC", "edif_read", 3), ("MC", "edif_read1", 3), ("MC", "edif_read", 12, 200), ("MC", "edif_read_br", 2), ("MC", "edif_read_case", 0), ("FILES", "edif_file", 40000)]},
     "C03": {"quick": [("MC", "edif_rt", 3), ("MC", "edif_rt2", 2), ("MC", "edif_rt", 10, 40), ("MC", "edif_rt_br", 1), ("MC", "edif_rt_case", 0), ("MC", "edif_rt_memo", 0), ("MC", "edif_reexport", 0), ("FILES", "edif_rt", 4000)],
-            "thorough": [("MC", "edif_rt", 4), ("MC", "edif_rt1", 4), ("MC", "edif_rt", 12, 1500), ("MC", "edif_rt_br", 2), ("MC", "edif_rt_case", 0), ("MC", "edif_reexport", 0), ("FILES", "edif_rt", 40000)]},
+            "thorough": [("MC", "edif_rt", 4), ("MC", "edif_rt1", 4), ("MC", "edif_rt", 12, 400), ("MC", "edif_rt_br", 2), ("MC", "edif_rt_case", 0), ("MC", "edif_reexport", 0), ("FILES", "edif_rt", 40000)]},
     "C20": {"quick": [("MC", "compare", 0), ("MC", "compare_assign", 0)], "thorough": [("MC", "compare", 0), ("MC", "compare_assign", 0)]},
     "C13": {"quick": [("MC", "query", 1), ("MC", "query_edif", 0), ("MC", "query_edif_ref", 0), ("MC", "query_nons", 0)],
             "thorough": [("MC", "query", 30), ("MC", "query_edif", 0), ("MC", "query_edif_ref", 0), ("MC", "query_nons", 0)]},
